@@ -129,6 +129,35 @@ def run(ctx):
         for cls, init, steps in DIRECTED:
             case = {'cls': cls, 'init': init, 'steps': [list(x) for x in steps]}
             ctx.run_case(lambda c, k: episode(c, k), case)
+    # sizes and argument shapes at which a bulk path could take over: kilobytes of data swapped in items of 2..8 bytes, hundreds of positions
+    # (with repeats) inverted or set at once, a byte-aligned replace whose match lies across a 64 KiB edge
+    rng = ctx.rng
+    for i in range(12 if ctx.quick else 240):
+        if not ctx.mine(i):
+            continue
+        kind = ('byteswap', 'positions', 'replace-far')[i % 3]
+        if kind == 'byteswap':
+            nbytes = rng.choice([1024, 1028, 2048, 4096, 8200, 65536 + 24, 65536 * 3 + 6])
+            m = util.rb(rng, 8 * nbytes)
+            steps = [['byteswap', [rng.choice([4, 2, 8, 3, 5, 6, 'l', '>I', 'f', 'h', 'q', [4], [2, 4]]), rng.choice([None, 0, 8, 32]), None, True, 'list']],
+                     ['byteswap', [rng.choice([4, 3, 7, 'L']), None, rng.choice([None, 8 * nbytes - 8]), rng.choice([True, False]), 'list']]]
+        elif kind == 'positions':
+            L = rng.choice([1, 2, 9, 300, 5000])
+            m = util.content(rng, L)
+            k = rng.choice([128, 129, 150, 256, 1000])
+            base = [rng.randrange(-L, L) for _ in range(rng.choice([1, 3, k]))]
+            pos = (base * k)[:k] if rng.random() < 0.6 else [rng.randrange(-L, L) for _ in range(k)]
+            steps = [['invert', [pos]], ['set', [rng.choice([0, 1]), pos]], ['invert', [{'range': [-L, L, 1]}]] if L > 1 else ['invert', [[0] * k]]]
+        else:
+            block = 65536
+            old = '00001101' + '00001010'
+            nbytes = block * rng.choice([1, 2]) + rng.choice([1, 2, 40])
+            st = rng.choice([0, 0, 8, 800])
+            at = st + 8 * block - 8
+            m = '0' * 16 + old + '0' * (at - 32) + old + '0' * (8 * nbytes - at - 16)
+            m = m[:8 * nbytes]
+            steps = [['replace', [['Bits', old], ['Bits', rng.choice(['1' * 16, '1' * 8, ''])], st or None, None, rng.choice([None, None, 5]), True]]]
+        ctx.run_case(lambda c, k_: episode(c, k_), {'cls': rng.choice(util.MUTABLE), 'init': m, 'steps': steps, 'oba': False, 'made': 'bin'})
     n = ctx.scale(80000, 1600000)
     lengths = util.SHORT_LENGTHS + [255, 256, 257, 1000, 1024] + ([] if ctx.quick else [4097, 8193])
     for i in range(n):
